@@ -12,7 +12,7 @@ COL_WIDTH = 6.25  # default portrait col_width (8.5 - 2.25)
 def make_table(heights, groups=None, *, ndata=2, fonts=None, sizes=None, subline=None, page_by_levels=0,
                new_page=False, pageby_row=None, pageby_header=None, header="explicit", footnote=None, source=None,
                nrow=10, placements=None, tall_cols=None, title=False, group_first=True, rel_widths=None, shared=None,
-               reverse_group_cols=False, size_pattern=None, null_cells=None, tall_header=0, tall_header_col=None, group_by_runs=None, glyphs=None, as_colheader=None):
+               reverse_group_cols=False, size_pattern=None, null_cells=None, tall_header=0, tall_header_col=None, group_by_runs=None, glyphs=None, as_colheader=None, group_style=None):
     """Deterministic builder.
     heights: list of target line counts per row.
     groups: list (one per page_by level) of per-row values; subline: per-row values or None.
@@ -106,8 +106,9 @@ def make_table(heights, groups=None, *, ndata=2, fonts=None, sizes=None, subline
         body["text_font_size"] = [[sz] * len(cols) for sz in size_pattern]
         if any(f != 1 for f in fonts):
             body["text_font"] = [fonts[_di(c)] if _di(c) is not None else 1 for c in cols]
-    elif any(f != 1 for f in fonts) or any(s != 9 for s in sizes):
-        # per-column vectors indexed by ORIGINAL column position
+    elif any(f != 1 for f in fonts) or any(s != 9 for s in sizes) or group_style:
+        # per-column vectors indexed by ORIGINAL column position; group_style = (font, size) of the key columns, which is the
+        # style of their spanning heading rows
         fvec, svec = [], []
         for c in cols:
             if _di(c) is not None:
@@ -115,8 +116,8 @@ def make_table(heights, groups=None, *, ndata=2, fonts=None, sizes=None, subline
                 fvec.append(fonts[j])
                 svec.append(sizes[j])
             else:
-                fvec.append(1)
-                svec.append(9)
+                fvec.append(group_style[0] if group_style else 1)
+                svec.append(group_style[1] if group_style else 9)
         body["text_font"] = fvec
         body["text_font_size"] = svec
     sec = {"df": {"cols": cols}, "body": body}
@@ -315,6 +316,8 @@ def pag_recipe(draw, *, fonts=False, strategies=("plain", "page_by", "page_by_ne
                      tall_header_col=draw(st.integers(0, 3)), group_by_runs=gb_runs,
                      # explicit header rows are rendered (and take their lines) whatever as_colheader says
                      as_colheader=False if (header in ("explicit", "multi") and draw(st.integers(0, 9)) < 2) else None,
-                     glyphs=[draw(st.sampled_from(["normal", "wide", "narrow"])) for _ in range(draw(st.integers(1, 4)))] if (glyph_mix and draw(st.booleans())) else None)
+                     glyphs=[draw(st.sampled_from(["normal", "wide", "narrow"])) for _ in range(draw(st.integers(1, 4)))] if (glyph_mix and draw(st.booleans())) else None,
+                     # the key columns' own type = the type of their spanning heading rows
+                     group_style=(draw(st.integers(1, 10)), draw(st.sampled_from([7, 12, 14, 18, 24]))) if (fonts and levels and draw(st.integers(0, 9)) < 3) else None)
     rec["strategy"] = strat
     return rec
